@@ -33,7 +33,10 @@ const wfRule = "generated: (a) every goto-built CFG with n labelled blocks (each
 	"thorough n<=3 complete (defer variants of n=3 with at most one escaping block), n=4 with unordered target pairs and (no escape | p = &x in the third block); " +
 	"(b) every structured program construct (30: range over int/slice/string/map/chan/array/func, nested range-over-func with defer, defer/recover with named results, closures over loop " +
 	"variables, generics across packages, type switch, select, labelled break/continue, switch/fallthrough, short-circuit, comma-ok forms, conversions, method values/wrappers/thunks, go/defer, " +
-	"builtins, composite literals, split allocs in branches, trivial phis, goto loops) x operand shape (4) x skeleton (4) x language version (1.21, 1.26); (c) three small families, complete over their dimensions: dead/overwritten stores " +
+	"builtins, composite literals, split allocs in branches, trivial phis, goto loops) x operand shape (4) x skeleton (4) x language version (1.21, 1.26); (d) the header-expression family: 49 statements with a header/operand expression (switch tag with constant and non-constant cases, with/without default, fallthrough, init, label; tagless switch cases; " +
+	"type switch tag with/without binding; if cond/init; for init/cond/post; range over slice/int/string/map/chan/array/func; select send/recv operands; return/defer/go/call arguments; index and slice operands; " +
+	"composite literal elements; assignment right-hand sides and indexed/dereferenced left-hand sides; comma-ok forms; send) x 6 operands (a | a && b | a || b | fb(a && b) | a call that cannot return under SetNoReturn | " +
+	"a function literal call that may panic), one program per pair, a builder panic being a violation of that pair; (c) three small families, complete over their dimensions: dead/overwritten stores " +
 	"(2 initialisations x chains of 1..3 ifs with 5 conditional-store forms each x 4 endings), locals that become splittable only in lift round >= 2 in or behind a join block headed by 0..3 phis " +
 	"(4 access paths x 4 x 2), go1.22 three-clause loops with 1..3 loop variables, 0..n of them captured, 3 exits, 3 places where a local escapes; every generated program is built as a " +
 	"multi-package program with Program.Build under all 16 combinations of {NaiveForm, GlobalDebug, InstantiateGenerics, BuildSerially}. corpora: every package of `go list std`, of " +
@@ -75,7 +78,7 @@ func wfModeName(m ir.BuilderMode) string {
 }
 
 type wfCase struct {
-	Kind   string        `json:"kind"` // "corpus" | "goto" | "struct" | "mini"
+	Kind   string        `json:"kind"` // "corpus" | "goto" | "struct" | "mini" | "hdr"
 	Corpus string        `json:"corpus,omitempty"`
 	Pkg    string        `json:"pkg,omitempty"`
 	Fn     string        `json:"fn,omitempty"`
@@ -83,6 +86,7 @@ type wfCase struct {
 	Goto   *wfGotoSpec   `json:"goto,omitempty"`
 	Struct *wfStructSpec `json:"struct,omitempty"`
 	Mini   *wfMiniSpec   `json:"mini,omitempty"`
+	Hdr    *wfHdrSpec    `json:"hdr,omitempty"`
 	Rule   string        `json:"rule,omitempty"`
 }
 
@@ -527,6 +531,61 @@ func (r *wfRun) miniBatch(specs []wfMiniSpec, mode ir.BuilderMode) {
 	r.res.Count("generated_mini_function_builds", int64(len(specs)))
 }
 
+// hdrProgram builds one program of the header-expression family (wf_gen3_test.go) and checks its
+// function (and the function literals inside it). A builder panic is a violation of that program.
+func (r *wfRun) hdrProgram(spec wfHdrSpec, mode ir.BuilderMode, withPrelude bool) {
+	src := "package h\n" + wfHdrPrelude + spec.source("f")
+	pkgs := []wfGenPkg{{"gen/h", src}, {"gen/h2", "package h2\n\nfunc Z(a, b bool) bool { return a && b }\n"}}
+	js, _ := json.Marshal(spec)
+	desc := fmt.Sprintf("\nstatement %s, operand %s; source:\n%s", wfHdrStmts[spec.Stmt].Name, wfHdrOps[spec.Op], spec.source("f"))
+	built, _, genErr, buildPanic := wfBuildProgram(pkgs, 26, mode)
+	if genErr != "" {
+		r.res.Note("generator defect (header family %s): %s", js, genErr)
+		r.res.NotExhaustive("a generated program did not type-check")
+		return
+	}
+	sp := spec
+	if buildPanic != "" {
+		r.functions.Add(1) // the case was evaluated: the builder fell over
+		r.mu.Lock()
+		r.perRule["build.panic"]++
+		key := fmt.Sprintf("hdr:%s:fn0:build.panic", js)
+		if prev, dup := r.found[key]; !dup || int(mode) < int(prev.mode) {
+			r.found[key] = wfFound{key: key, mode: mode, c: wfCase{Kind: "hdr", Hdr: &sp, Mode: int(mode), Rule: "build.panic"},
+				msg: fmt.Sprintf("[build.panic] the builder panicked in mode %s (%d): %s%s", wfModeName(mode), int(mode), buildPanic, desc)}
+		}
+		r.mu.Unlock()
+		return
+	}
+	fn := built[0].Pkg.Func("f")
+	if fn == nil {
+		r.res.NotExhaustive("generated function missing")
+		return
+	}
+	var all []*ir.Function
+	var walk func(f *ir.Function)
+	walk = func(f *ir.Function) {
+		all = append(all, f)
+		for _, a := range f.AnonFuncs {
+			walk(a)
+		}
+	}
+	walk(fn)
+	for k, g := range all {
+		r.checkOne(g, mode, fmt.Sprintf("hdr:%s:fn%d", js, k), wfCase{Kind: "hdr", Hdr: &sp}, desc)
+	}
+	if withPrelude {
+		for _, bp := range built {
+			for _, m := range bp.Pkg.Functions {
+				if m != fn {
+					r.checkOne(m, mode, fmt.Sprintf("hdr:prelude:%s", wfKeyPart(m.String())), wfCase{Kind: "hdr", Hdr: &sp}, "")
+				}
+			}
+		}
+	}
+	r.res.Count("generated_header_function_builds", 1)
+}
+
 // wfGotoSpecs: the bounded space of goto programs, smallest first.
 //
 //	quick:    n<=2: all CFGs x all escape assignments x {defer};  n=3: CFGs with unordered target pairs x
@@ -624,7 +683,27 @@ func (r *wfRun) structProgram(specs []wfStructSpec, goMinor int, mode ir.Builder
 }
 
 func (r *wfRun) generated() {
-	// the small families first: a few thousand tiny functions × 16 modes
+	// statements whose header expressions contain control flow: one program per (statement, operand, mode)
+	hdrs := wfHdrSpecs()
+	r.res.Count("header_specs", int64(len(hdrs)))
+	r.res.Sample(map[string]any{"kind": "hdr", "hdr": hdrs[1], "source": hdrs[1].source("f")})
+	{
+		var hskipped atomic.Int64
+		wfParallel(len(hdrs)*len(wfModes16), func(i int) {
+			if r.expired() {
+				hskipped.Add(1)
+				return
+			}
+			r.hdrProgram(hdrs[i/len(wfModes16)], wfModes16[i%len(wfModes16)], i/len(wfModes16) == 0)
+		})
+		if n := hskipped.Load(); n > 0 {
+			r.res.NotExhaustive(fmt.Sprintf("time budget reached: %d of %d header-family programs not run", n, len(hdrs)*len(wfModes16)))
+		}
+	}
+	if os.Getenv("VERIF_C02_ONLY_GEN") == "hdr" { // development aid
+		return
+	}
+	// the small families: a few thousand tiny functions × 16 modes
 	minis := wfMiniSpecs()
 	r.res.Count("mini_specs", int64(len(minis)))
 	r.res.Sample(map[string]any{"kind": "mini", "mini": minis[len(minis)-40], "source": minis[len(minis)-40].source("f")})
@@ -1105,6 +1184,10 @@ func (r *wfRun) replay(raw json.RawMessage) {
 	case "goto":
 		if c.Goto != nil {
 			r.gotoBatch([]wfGotoSpec{*c.Goto}, mode)
+		}
+	case "hdr":
+		if c.Hdr != nil && c.Hdr.ok() {
+			r.hdrProgram(*c.Hdr, mode, false)
 		}
 	case "mini":
 		if c.Mini != nil && c.Mini.ok() {
